@@ -186,6 +186,12 @@ vh::Outcome run_locks(const vh::Case& c, Prop prop) {
                                     vrt::fail("spurious-null", std::string(opname[kind]) + " returned null although nobody held the lock during the call");
                                 if (!h) st.lbl_try_null = true;
                                 if (h && is_try && held_at_call) st.lbl_release_during_timed = true;
+                                if (!h && lifecycles && op.a >= 5) {
+                                    // unconditional clean-up code: unlock() on a handle that never got the lock must not release anybody's lock
+                                    // (the modelled mutex reports an unlock by a non-owner)
+                                    h.unlock();
+                                    if (h) vrt::fail("unlock-not-null", "null handle became non-null after unlock()");
+                                }
                             }
                             if (h) {
                                 st.excl_alive++;
@@ -287,6 +293,7 @@ vh::Outcome run_locks(const vh::Case& c, Prop prop) {
                                 if (!share_capable && !h && !(excl_at_call) && eacq0 == core->excl_acqs)
                                     vrt::fail("spurious-null", std::string(opname[kind]) + " returned null although nobody held the lock during the call");
                                 if (!h) st.lbl_try_null = true;
+                                if (!h && lifecycles && op.a >= 5) { h.unlock(); if (h) vrt::fail("unlock-not-null", "null shared handle became non-null after unlock()"); }
                                 if (h && share_capable && core->nshared >= 2) st.lbl_two_readers = true;
                                 if (h && excl_at_call) st.lbl_reader_writer_contended = true;
                             }
